@@ -23,6 +23,7 @@ EXPLANATION = (
     "map is the identity on every dataclass field through a listed inverse pair, same struct both ways, every "
     "non-padding struct field covered; same rule on the operand classes. C01.F: metadata/chunk framing and opcode "
     "dispatch are coherent between Subroutine.cstructs and Deserializer."
+    ' Each Flavour instance must own its opcode and mnemonic tables (no aliasing of a shared container that is then updated). C01.R: every value an encoder accepts is representable in the field it is written to (the guard/sink obligations of C16).'
 )
 ASSUMPTIONS = [
     "operands are inside their encodable ranges (that is C16)",
